@@ -47,8 +47,8 @@ def reads_r2():
 def configs():
     C = []
 
-    def add(name, argv, layout="single", fmt="fastq", nreads=9):
-        C.append(dict(name=name, argv=argv, layout=layout, fmt=fmt, nreads=nreads))
+    def add(name, argv, layout="single", fmt="fastq", nreads=9, reads="std"):
+        C.append(dict(name=name, argv=argv, layout=layout, fmt=fmt, nreads=nreads, reads=reads))
 
     add("single", ["-a", f"a1={A1}", "-o", "{d}/out.fq"])
     add("single-redirects", ["-a", f"a1={A1}", "-a", f"a2={A2}", "-m", "8", "-M", "30", "--too-short-output", "{d}/ts.fq",
@@ -71,6 +71,7 @@ def configs():
     add("quality-polya", ["-q", "10,15", "--poly-a", "--trim-n", "--max-n", "2", "--max-ee", "1.5", "--discard-casava",
                           "-a", f"a1={A1}", "-o", "{d}/out.fq"])
     add("interleaved-fasta", ["--interleaved", "-a", f"a1={A1}", "-A", f"b2={A2}", "-o", "{d}/out.fa"], layout="interleaved", fmt="fasta")
+    add("linked-revcomp", ["--revcomp", "-a", "lk=ACGT...GGGG", "-a", f"a2={A2}", "-o", "{d}/out.fq"], layout="single", reads="rc")
     add("fasta-input", ["-a", f"a1={A1}", "--action", "lowercase", "-o", "{d}/out.fa"], fmt="fasta")
     add("mask-rename", ["-g", "f1=ACGTAC", "-a", f"a1={A1}", "--action", "mask", "--times", "2",
                         "--rename", "{{id}} {{adapter_name}} {{comment}}", "-o", "{d}/out.fq"])
@@ -79,8 +80,22 @@ def configs():
     return C
 
 
+def reads_rc():
+    """Reads matching the linked adapter ACGT...GGGG, most of them stored reverse-complemented, so that several chunks
+    (and therefore several workers) see matches on the reverse complement."""
+    from .. import refops
+
+    base = ["ACGTTTGACCAGGGGTT", "ACGTCATCATCATGGGG", "ACGTAAGGGGCC", "TTGACCATTGACCA", "ACGTTGCATGCAGGGGA", "ACGTGGGG", "ACGTCCATGGGGAC",
+            "ACGTATATATGGGG", "CATTACGGGGTTTT"]
+    out = []
+    for i, s in enumerate(base):
+        s2 = s if i % 4 == 3 else refops.revcomp(s)
+        out.append((f"q{i}", s2, _q(len(s2), i)))
+    return out
+
+
 def write_inputs(cfg, wd):
-    r1 = reads_single()[: cfg["nreads"]]
+    r1 = (reads_rc() if cfg.get("reads") == "rc" else reads_single())[: cfg["nreads"]]
     r2 = reads_r2()[: cfg["nreads"]]
     txt = clih.fastq_text if cfg["fmt"] == "fastq" else clih.fasta_text
     ext = "fq" if cfg["fmt"] == "fastq" else "fa"
@@ -236,6 +251,9 @@ def plan(tier):
         for n in names:
             if n not in ("single", "single-redirects", "paired"):
                 T.append((ix[n], 2, 2, None, "D", 2))
+        T.append((ix["interleaved-fasta"], 2, 40, None, "D", 1))  # buffer so small that chunks hold single records
+        T.append((ix["interleaved"], 2, 40, None, "D", 1))
+        T.append((ix["linked-revcomp"], 2, 4, None, "D", 2))
         T.append((ix["single"], 2, 3, 1, "D", 1))
         T.append((ix["paired"], 2, 2, 1, "D", 1))
         T.append((ix["single-redirects"], 3, 3, None, "D", 1))
@@ -243,6 +261,9 @@ def plan(tier):
         for n in names:
             T.append((ix[n], 2, 3, None, "D", 2))
             T.append((ix[n], 2, 2, 1, "D", 2))
+        T.append((ix["interleaved-fasta"], 2, 40, None, "D", 2))
+        T.append((ix["interleaved"], 2, 40, None, "D", 2))
+        T.append((ix["linked-revcomp"], 3, 5, None, "D", 2))
         for n in ("single", "single-redirects", "paired", "demux"):
             T.append((ix[n], 3, 4, None, "D", 2))
             T.append((ix[n], 2, 4, None, "D", 3))
